@@ -89,6 +89,16 @@ func init() {
 			return ex.constStr(p.Obj.Name)
 		},
 		"sort.Slice":        intrSortSlice,
+		"bytes.HasPrefix": func(ex *Exec, fn *ssa.Function, a []Value, fr *Frame) Value {
+			return ex.matchAt(ex.sliceTerms(a[0].(*SliceV)), 0, ex.sliceTerms(a[1].(*SliceV)))
+		},
+		"bytes.Equal": func(ex *Exec, fn *ssa.Function, a []Value, fr *Frame) Value {
+			x, y := ex.sliceTerms(a[0].(*SliceV)), ex.sliceTerms(a[1].(*SliceV))
+			if len(x) != len(y) {
+				return ex.tb.False
+			}
+			return ex.matchAt(x, 0, y)
+		},
 		"strings.Join":      intrStringsJoin,
 		"strings.Contains":  intrStringsContains,
 		"strings.HasPrefix": intrStringsHasPrefix,
@@ -461,6 +471,8 @@ func (ex *Exec) verifCall(fn *ssa.Function, args []Value, fr *Frame) Value {
 			}
 		}
 		return ex.constStr("")
+	case "verifNative":
+		return tb.False
 	case "verifTier":
 		return ex.i64(int64(ex.opts.Tier))
 	case "verifOpaqueID":
